@@ -38,6 +38,19 @@ def holdsOutline (ordered : Bool) (tol : Q) (gs : GlyphSet) (g : Glyph) (obs : L
     else if ordered then obs == ops else (splitContours obs []).isPerm (splitContours ops [])
   | .error _ => false
 
+/-- "every exported glyph": a glyph of the UFO is exported unless the caller's `skipExportGlyphs` argument names it; the UFO's
+    `public.skipExportGlyphs` lib key counts only when NO argument was passed ("If the parameter is not passed in, the UFO's
+    'public.skipExportGlyphs' lib key will be consulted") - an explicit empty argument exports everything -/
+def isExported (arg : Option (List String)) (lib : List String) (n : String) : Bool :=
+  match arg with
+  | some a => !a.contains n
+  | none => !lib.contains n
+
+/-- the glyph names of the compiled font are exactly the exported glyphs of the UFO (plus a synthesised `.notdef`) -/
+def holdsExported (arg : Option (List String)) (lib : List String) (src : List String) (font : List String) : Bool :=
+  src.all (fun n => font.contains n == isExported arg lib n) &&
+  font.all (fun n => src.contains n || n == ".notdef")
+
 def holdsAdvance (g : Glyph) (obs : Int) : Bool := obs == otRound g.width && decide (0 ≤ obs)
 
 end Ufo2ft.C01
